@@ -122,6 +122,18 @@ def check_clock(db, rep):
         else:
             rep.ok('D.clock')
             rep.sample('D.clock', 'no numerics: t -> t+dt, PreDerive(t+dt), 0 writes to the state array')
+        # every call invokes the callback, also a zero-length one right after (the time it is given has been seen before)
+        for label, step in (('a zero-length segment', Poly.const(0)), ('a further segment', Poly.var('dt2'))):
+            hooks.hook_calls = []
+            tb = sm.field(this, 't')
+            it.call(fE, this, [step])
+            ta = sm.field(this, 't')
+            pd = [h for h in hooks.hook_calls if h[0] == 'PreDerive']
+            if isinstance(ta, Poly) and ta.equals(it.to_poly(tb) + step) and len(pd) == 1 and it.to_poly(pd[0][1][0]).equals(ta):
+                rep.ok('D.clock')
+            else:
+                rep.fail('D.clock', 'Evolve/no-numerics/then %s' % label, unit.loc(fE), 'clock advanced by the step and PreDerive(new t) invoked once, in every call',
+                         't: %s -> %s, PreDerive calls: %s' % (tb, ta, [str(h[1][0]) for h in pd]), fE['name'])
     # Evolve consults AnyNumerics (the OR maintained by the setters), for every single switch
     for idx, name in enumerate(SWITCHES):
         this, hooks, it = sm.new_solver(db, *cfg)
